@@ -125,6 +125,18 @@ PROPS["C26"] = dict(
           "only the final one marked last, and the values concatenate to the payload (skipped, not failed, where loopback TCP is unavailable)",
           bound="77 (payload size, write schedule) pairs (native run of the compiled code; not a deductive result)",
           fns=[("ul/src/association/pdata.rs", "setup_pdata_header")], timeout=600),
+        N("C26.async",
+          "cp /repo/Cargo.lock /verif/witness/Cargo.lock && CARGO_TARGET_DIR=/verif/build/witness cargo run --offline -q --release "
+          "--manifest-path /verif/witness/Cargo.toml --bin c26_async 2>&1 | grep -E '^(WITNESS|EXHAUSTIVE|SKIPPED|error)' | tail -12",
+          "the asynchronous clauses, on the compiled code (dicom-ul built with the `async` feature, tokio runtime inside the process): the "
+          "asynchronous writer through an asynchronous requestor association over loopback TCP — same payload sizes and write schedules as "
+          "C26.writer_messages, PDUs inspected by a synchronous acceptor; the asynchronous reader (AsyncRead for PDataReader) on "
+          "writer-shaped messages from a mock transport delivering segments of 1 / 5 / 13 / all bytes and answering Pending on every other "
+          "poll, caller buffers of 1 / 2 / 64 bytes: exactly the payload, exactly the following bytes left (the writer part is skipped, "
+          "not failed, where loopback TCP is unavailable)",
+          bound="1048 cases: 40 writer (payload, schedule) pairs + 1008 reader (message shape, continuation, segment size, buffer size) cases "
+                "(native run of the compiled code; Pending patterns of a real socket are whatever the kernel produces; not a deductive result)",
+          fns=[("ul/src/association/pdata.rs", "setup_pdata_header")], timeout=900),
         N("C26.reader_messages",
           "cp /repo/Cargo.lock /verif/witness/Cargo.lock && CARGO_TARGET_DIR=/verif/build/witness cargo run --offline -q --release "
           "--manifest-path /verif/witness/Cargo.toml --bin c26_reader_messages 2>&1 | grep -E '^(WITNESS|EXHAUSTIVE|error)' | tail -12",
@@ -772,8 +784,10 @@ PROPS["C34"] = dict(
           "encapsulated pixel data) written as a data set in Implicit VR LE / Explicit VR LE / Explicit VR BE and as a complete file to a "
           "sink that fails, or accepts zero bytes, at byte offset k (from then on, or once only) — for EVERY k up to the length of the output the operation "
           "returns an error (never Ok, never a panic), and a sink accepting one byte per call receives the identical complete output; the "
-          "same streams read back from a source that reports an I/O error at offset k, for every k: an error, never a partial object",
-          bound="14 354 (operation, failure mode, offset) cases over 2 objects x (3 data set syntaxes + file) (native enumeration of the compiled "
+          "same streams read back from a source that reports an I/O error at offset k, for every k: an error, never a partial object; a stream "
+          "of three PDUs received through read_pdu_from_wire from a transport failing at offset k (every k, three segment sizes): the PDUs "
+          "completely before the failure are received, then an error",
+          bound="14 465 (operation, failure mode, offset) cases over 2 objects x (3 data set syntaxes + file) (native enumeration of the compiled "
                 "code; not a deductive result)",
           fns=[("object/src/mem.rs", "write_dataset_with_ts"), ("object/src/mem.rs", "read_dataset_with_ts")]),
     ],
@@ -781,7 +795,7 @@ PROPS["C34"] = dict(
                  "io::Error values produced by the writer itself are outside the Kani harnesses (bit-packed representation is too costly)",
                  "Drop for PDataWriter discards the result of finish_impl by design; the public finish() propagates it"],
     uncovered=["whole-file / data-set writers and readers deductively (FileDicomObject::write_*, DataSetWriter, DataSetReader: only the native "
-               "unit C34.io_failures covers them, for two small objects)", "deflate adapter", "PDU send/receive in associations"],
+               "unit C34.io_failures covers them, for two small objects)", "deflate adapter", "PDU sending in associations (sockets)"],
 )
 
 # ----------------------------------------------------------------------- C05
@@ -897,7 +911,7 @@ PROPS["C27"] = dict(
           "and an A-RELEASE-RQ: after establish, successive receive() calls (or receive_pdata() then receive()) return exactly those PDUs in "
           "order: nothing that arrived together with the handshake PDU, or behind a P-DATA message, is lost when the read buffer changes hands "
           "(skipped, not failed, where loopback TCP is unavailable)",
-          bound="12 checks over 6 conversations (native run of the compiled code; not a deductive result)",
+          bound="16 checks over 8 conversations, two of them with the asynchronous requestor (native run of the compiled code; not a deductive result)",
           fns=[("ul/src/association/mod.rs", "read_pdu_from_wire")], timeout=600),
         N("C27.segmentations",
           "cp /repo/Cargo.lock /verif/witness/Cargo.lock && CARGO_TARGET_DIR=/verif/build/witness cargo run --offline -q --release "
